@@ -423,3 +423,9 @@ func TestVerifC03Validity(t *testing.T) {
 		"rapid: duration spec (grammar over ParseDuration syntax, incl. values around -(now epoch), malformed, absent) x credential kind/age x issuing path x key/signer kind; non-trivial = a certificate was issued and (a duration field was present or the credential was not fresh or the path is an automation/cloud path); distinct = (path, duration class, age class, credential kind, key kind)",
 		c03Gen, c03Check)
 }
+
+// FuzzVerifC03Validity: coverage-guided search (go test -fuzz) over the entropy
+// stream of the generator of TestVerifC03Validity, with the same oracle.
+func FuzzVerifC03Validity(f *testing.F) {
+	vRunFuzz(f, "native coverage-guided fuzzing of the entropy stream of the TestVerifC03Validity generator (rapid.MakeFuzz); same case structure, oracle, non-trivial rule and distinctness rule as TestVerifC03Validity", c03Gen, c03Check)
+}
